@@ -71,9 +71,9 @@ func remoteFiles(rc remoteCase) (local map[string]string, remote map[string]stri
 	local = map[string]string{}
 	remote = map[string]string{
 		"github.com/o/other/w.sysl": "RW:\n    ...\nS:\n    EW:\n        ...\n",
-		remoteRepo + "/x.sysl":     "import y\nimport /sub/z\nimport //github.com/o/other/w\nRX:\n    ...\nS:\n    EX:\n        ...\n",
-		remoteRepo + "/y.sysl":     "import /x\nRY:\n    ...\nS:\n    EY:\n        ...\n",
-		remoteRepo + "/sub/z.sysl": "import ../y\nRZ:\n    ...\nS:\n    EZ:\n        ...\n",
+		remoteRepo + "/x.sysl":      "import y\nimport /sub/z\nimport //github.com/o/other/w\nRX:\n    ...\nS:\n    EX:\n        ...\n",
+		remoteRepo + "/y.sysl":      "import /x\nRY:\n    ...\nS:\n    EY:\n        ...\n",
+		remoteRepo + "/sub/z.sysl":  "import ../y\nRZ:\n    ...\nS:\n    EZ:\n        ...\n",
 	}
 	switch rc.Shape {
 	case "one":
